@@ -1,6 +1,7 @@
 // @module crate=glaredb_ext_parquet parent=src/column/value_reader/int96.rs
 // @encodes Int96TsReader::read_next_unchecked, PlainDecoder::<Int96TsReader>::read_plain, ReadCursor::read_next_unchecked
 // @bounds one INT96 value (12 symbolic bytes: i64 nanoseconds of day, u32 Julian day) read into a 1-row Int64 array; Julian day within 106750 days of 1970-01-01 (the whole Timestamp(ns) range) and 0 <= nanos < 86_400e9 for the value harnesses; all 2^96 byte patterns for the no-panic harness; unwind 3
+// @stubs alloc::fmt::format, Backtrace::capture, ReaderErrorState::set_error_fn -> flag (real pair checked by c19_reader_error_state)
 //! C10: an INT96 timestamp decodes to (julian_day - 2440588) * 86_400e9 + nanos_of_day
 //! nanoseconds since the Unix epoch, for days before as well as after 1970-01-01.
 //! C19: any 12 bytes decode to a value or an error, never a panic.
@@ -13,6 +14,7 @@ use super::*;
 use crate::column::encoding::Definitions;
 use crate::column::encoding::plain::PlainDecoder;
 use crate::kani_verif_support::*;
+use crate::column::value_reader::kani_verif_support_reader::error_reported;
 
 const EPOCH: i64 = 2_440_588;
 const NANOS: i64 = 86_400_000_000_000;
@@ -33,7 +35,7 @@ fn decode(nanos: i64, julian: u32) -> Option<i64> {
     bytes[11] = j[3];
     let mut out = ok(Array::new(&DefaultBufferManager, DataType::int64(), 1));
     let mut dec = PlainDecoder { buffer: ReadCursor::from_slice(&bytes), value_reader: Int96TsReader };
-    let good = is_ok_forget(dec.read_plain(Definitions::NoDefinitions, &mut out, 0, 1));
+    let good = is_ok_forget(dec.read_plain(Definitions::NoDefinitions, &mut out, 0, 1)) && !error_reported();
     let r = if good {
         let (out_data, _) = out.data_and_validity_mut();
         Some(ok(PhysicalI64::get_addressable(out_data)).slice[0])
@@ -49,6 +51,7 @@ fn decode(nanos: i64, julian: u32) -> Option<i64> {
 #[kani::unwind(9)]
 #[kani::stub(alloc::fmt::format, crate::kani_verif_support::stub_format)]
 #[kani::stub(std::backtrace::Backtrace::capture, crate::kani_verif_support::stub_backtrace)]
+#[kani::stub(crate::column::value_reader::ReaderErrorState::set_error_fn, crate::column::value_reader::kani_verif_support_reader::stub_set_error_flag)]
 fn c10_int96_after_epoch() {
     let nanos: i64 = kani::any();
     let julian: u32 = kani::any();
@@ -64,6 +67,7 @@ fn c10_int96_after_epoch() {
 #[kani::unwind(9)]
 #[kani::stub(alloc::fmt::format, crate::kani_verif_support::stub_format)]
 #[kani::stub(std::backtrace::Backtrace::capture, crate::kani_verif_support::stub_backtrace)]
+#[kani::stub(crate::column::value_reader::ReaderErrorState::set_error_fn, crate::column::value_reader::kani_verif_support_reader::stub_set_error_flag)]
 fn c10_int96_before_epoch() {
     let nanos: i64 = kani::any();
     let julian: u32 = kani::any();
@@ -79,6 +83,7 @@ fn c10_int96_before_epoch() {
 #[kani::unwind(9)]
 #[kani::stub(alloc::fmt::format, crate::kani_verif_support::stub_format)]
 #[kani::stub(std::backtrace::Backtrace::capture, crate::kani_verif_support::stub_backtrace)]
+#[kani::stub(crate::column::value_reader::ReaderErrorState::set_error_fn, crate::column::value_reader::kani_verif_support_reader::stub_set_error_flag)]
 fn c19_int96_any_bytes() {
     let nanos: i64 = kani::any();
     let julian: u32 = kani::any();
